@@ -535,7 +535,7 @@ def gen_equiv_cases(fmts, rng, tier):
 
 
 HIST_FORMATS = ["a8r8g8b8", "x8r8g8b8", "b8g8r8a8", "r8g8b8", "r5g6b5", "a1r5g5b5", "a4r4g4b4", "a8", "a2b2g2r2", "r3g3b2",
-                "a4", "a1r1g1b1", "a1", "a2r10g10b10", "x2b10g10r10"]
+                "a4", "a1r1g1b1", "a1", "a2r10g10b10", "x2b10g10r10", "yuy2", "yv12"]
 
 
 def gen_hist_cases(fmts, rng, tier):
@@ -549,13 +549,20 @@ def gen_hist_cases(fmts, rng, tier):
     for name in HIST_FORMATS:
         F = fmts[name]
         stride = ((w * F.bpp + 31) // 32) * 4 + 4
+        nbytes = stride * h
+        if F.type == TYPE_YV12:          # planar: Y rows, then the V and U planes (YV12_SETUP of pixman-access.c)
+            stride = 16
+            sw_ = stride // 4
+            off0 = sw_ * h
+            off1 = off0 + (off0 >> 2)
+            nbytes = 4 * (off1 + (sw_ >> 1) * ((h + 1) >> 1) + 4)
         for role in ("s", "m", "d"):
             if role == "d" and not F.dst_ok:
                 continue
             for hist in hists:
                 k += 1
                 op = ops[role][k % len(ops[role])]
-                bufs = [bytes(rng.getrandbits(8) for _ in range(stride * h)) for _ in range(3)]
+                bufs = [bytes(rng.getrandbits(8) for _ in range(nbytes)) for _ in range(3)]
                 plain = [bytes(rng.getrandbits(8) for _ in range(w * 4 * h)) for _ in range(2)]
                 line = "H %s %s %d %d %d %d %d %s" % (role, hist, F.code, w, h, stride, op,
                                                       " ".join(b.hex() for b in bufs + plain))
